@@ -1,6 +1,7 @@
 import Proofs.C08.Num
 import Proofs.C08.Core
 import Proofs.C08.Gen
+import Proofs.C08.Refine
 import Model.C08.Verify
 import Generated.Script
 /-!
@@ -200,6 +201,39 @@ theorem accepted_stack_limit (cx : Core.Ctx) (stack out : List Bytes) (w : Int)
     have := Core.run_invariant cx (fun x => x.m.stack.length + x.m.alt.length ≤ Core.MAX_STACK_SIZE)
       (fun a b o _ hs => Core.step_stack_bound cx a b o hs) ops s st hb h2
     rw [ho]; simp only [Core.MAX_STACK_SIZE] at this; omega
+
+/-! ## T3 — the btclib-shaped model (`Model/C08/Btclib.lean`, tied to the real engine by the `bt.eval` stream)
+refines Core's transcription, op-code family by family -/
+
+/-- the byte-indexed dispatch of the btclib-shaped loop is `_run_ops`' if-chain over op-code NAMES, evaluated on
+    the name table and the OPERATIONS keys regenerated from the source — on every non-push byte. -/
+theorem btclib_dispatch_is_the_name_table :
+    ((List.range 256).filter (fun t => !(0 < t && t ≤ 78))).all
+      (fun t => Btclib.kindFromTables t == Btclib.kind t) = true := by decide +kernel
+
+/-- T3, op level, `_partial`: for each covered OPERATIONS entry —
+    stack: DUP 2DUP DROP 2DROP SWAP TOALTSTACK FROMALTSTACK NIP OVER ROT TUCK 3DUP 2OVER 2ROT 2SWAP RETURN, hashes RIPEMD160 SHA1
+    SHA256 HASH160 HASH256 (any hash functions); arithmetic: 1ADD 1SUB NEGATE ABS NOT 0NOTEQUAL ADD SUB BOOLAND BOOLOR
+    NUMEQUAL NUMNOTEQUAL LESSTHAN GREATERTHAN LESSTHANOREQUAL GREATERTHANOREQUAL MIN MAX; VERIFY IFDUP 1NEGATE DEPTH SIZE
+    WITHIN EQUAL — btclib's op-code function (pop order, IndexError, `_to_num`/`_to_bool`/`encode_num`) and the case of
+    Core's switch accept the same stacks and leave the same stacks, for every stack, altstack and flag set.
+    Not covered yet: PICK, ROLL, CHECKLOCKTIMEVERIFY, CHECKSEQUENCEVERIFY, the signature op codes. -/
+theorem operations_refine_Core_partial (cx : Btclib.Ctx) (sc : Bytes) (code : Nat) (h : code ∈ Refine.covered)
+    (stack alt : List Bytes) :
+    Refine.btRes (Btclib.operation cx code stack alt)
+      = Refine.coreRes (Core.execStackOp (Refine.coreCx cx sc) stack alt code) :=
+  Refine.operation_refines cx sc code h stack alt
+
+/-- T3, the expansion trick: `OP_EQUALVERIFY` / `OP_NUMEQUALVERIFY` re-fed as `[OP_EQUAL, OP_VERIFY]` /
+    `[OP_NUMEQUAL, OP_VERIFY]` leave what Core's fused op codes leave, and refuse when they do. -/
+theorem verify_expansions_refine_Core (cx : Btclib.Ctx) (sc : Bytes) (stack alt : List Bytes) :
+    ((Refine.btRes (Btclib.operation cx 0x87 stack alt)).bind fun p => Refine.btRes (Btclib.operation cx 0x69 p.1 p.2))
+      = Refine.coreRes (Core.execStackOp (Refine.coreCx cx sc) stack alt 0x88) ∧
+    ((Refine.btRes (Btclib.operation cx 0x9c stack alt)).bind fun p => Refine.btRes (Btclib.operation cx 0x69 p.1 p.2))
+      = Refine.coreRes (Core.execStackOp (Refine.coreCx cx sc) stack alt 0x9d) :=
+  Refine.expansion_refines cx sc stack alt
+
+example : (0x93 : Nat) ∈ Refine.covered ∧ (0x76 : Nat) ∈ Refine.covered := by decide
 
 -- non-vacuity: the hypotheses above are met by concrete programs
 private def demoCx (script : Bytes) : Core.Ctx :=
